@@ -48,6 +48,8 @@ def job(args):
     r.coverage["commands_accepted"] = nacc
     r.coverage["reads_returned"] = nrd
     if prop == "C01":
+        if any(cs["spurious"]) and not viol:
+            viol = "VIOL 0 a port received a write-data strobe although it had no write command outstanding (per port: %s)" % cs["spurious"]
         if viol:
             cyc = int(viol.split()[1])
             r.violations.append(dict(signature="c01-memory", what="%s 1:%d, %d ports, cycle %d: %s" % (cfg["memtype"], cfg["nphases"], nm, cyc, " ".join(viol.split()[2:])),
